@@ -481,11 +481,12 @@ Theorem traceql_requests_of_the_same_shape_have_the_same_structure : forall phi 
 Proof. exact TqEraseProofs.traceql_same_shape_requests. Qed.
 Print Assumptions traceql_requests_of_the_same_shape_have_the_same_structure.
 
-(* ... and for the search entry point (clickhouse_transpiler.Plan) with ANY number of selectors joined by && and ||: script_variant =
-   pointwise selector_variant and the same operators between the selectors.  planComplex builds the same tree of expression planners
+(* ... and for ALL THREE entry points with ANY number of selectors joined by && and || (the tags and values planners refuse several
+   selectors: both plans then fail alike): script_variant = pointwise selector_variant and the same operators between the selectors.  planComplex builds the same tree of expression planners
    (plan_complex_variant), every operand is planned alike, ComplexAndPlanner / ComplexOrPlanner wrap them alike. *)
-Theorem traceql_search_planner_is_value_independent : forall q q' c n, TqEraseProofs.script_variant q q' ->
-  match TraceqlPlan.plan q TraceqlPlan.MSearch c n, TraceqlPlan.plan q' TraceqlPlan.MSearch c n with
+Theorem traceql_search_planner_is_value_independent : forall q q' m m' c n,
+  TqEraseProofs.script_variant q q' -> TqEraseProofs.mode_variant m m' ->
+  match TraceqlPlan.plan q m c n, TraceqlPlan.plan q' m' c n with
   | TraceqlPlan.Ok s, TraceqlPlan.Ok s' =>
       pok QN (TqPieces.tq_pieces s) = true ->
       pok QN (TqPieces.tq_pieces s') = true /\ shape (TqPieces.tq_pieces s') = shape (TqPieces.tq_pieces s) /\
@@ -496,7 +497,7 @@ Theorem traceql_search_planner_is_value_independent : forall q q' c n, TqErasePr
   | TraceqlPlan.Panic, TraceqlPlan.Panic => True
   | _, _ => False
   end.
-Proof. exact TqEraseProofs.traceql_search_value_independent. Qed.
+Proof. exact TqEraseProofs.traceql_planners_value_independent. Qed.
 Print Assumptions traceql_search_planner_is_value_independent.
 
 (* two TraceQL trees with the same erasure have the same statement structure *)
